@@ -26,7 +26,7 @@ type VPipe struct {
 	rclosed    bool // reader side closed: reads and writes fail
 	Rendezvous bool // io.Pipe-like: Write returns only when everything was consumed
 	Writes     int  // completed Write calls
-	FailWrite  int  // fail the n-th Write call (1-based; 0 = never)
+	FailWrite  int  // the n-th Write call and all later ones fail (1-based; 0 = never)
 	CutAfter   int  // the reader sees EOF/err after this many bytes in total (-1 = never)
 	CutErr     error
 	delivered  int
@@ -72,7 +72,7 @@ func (p *VPipe) Write(b []byte) (int, error) {
 	if p.rclosed || p.wclosed {
 		return 0, io.ErrClosedPipe
 	}
-	if p.FailWrite > 0 && p.Writes == p.FailWrite {
+	if p.FailWrite > 0 && p.Writes >= p.FailWrite { // a dead transport stays dead
 		return 0, errors.New("injected write failure")
 	}
 	p.buf = append(p.buf, b...)
